@@ -22,6 +22,7 @@ func init() {
 		Rule: "E-proc invariant at sentinel barriers: {wd in /proc/self/fdinfo of the inotify descriptor} == {keys of the wd table} and the path table is a bijection onto it and WatchList == its keys; " +
 			"checked every k operations of PRNG programs over 4-6 names mixing Add/Remove (several spellings) with create, unlink, rename, hard link, mkdir, symlink/retarget, replace-by-rename, hold-open/release and re-Add " +
 			"(incl. re-Add while the old inode lives on through a hard link or open descriptor); at the end everything listed is removed (each Remove must succeed, none may panic) and the mark count must be back at the start value (sentinel only). " +
+			"In strict programs, right after every successful Add some kernel mark must be on the inode the path names now (identity, not only counts). " +
 			"distinct_nontrivial = distinct programs with >=2 Adds that passed >=3 invariant checks with >=2 marks present",
 		Assumptions: []string{"fdinfo lists every mark of the instance", "the invariant is read only at quiescent points (after a barrier), under the library's own lock"},
 		Batches:     func(t string) int { return map[string]int{"quick": 10, "thorough": 40}[t] },
